@@ -75,7 +75,7 @@ U.fn(F, 'collect_sources',
                              'assert(!im0.contains_key(k)) by { if im0.contains_key(k) { let j = choose|j: int| 0 <= j < cur && (#[trigger] elems[j]).0 == k; assert(elems[j].0 != elems[cur].0); } } '
                              'if include_map@.contains_key(k) { let v = include_map@[k]; assert(include_map@ =~= im0.insert(k, v)); lemma_insert_values(im0, k, v); } else { assert(include_map@ =~= im0); } '
                              'if files@.len() == fq.len() + 1 { let x = files@[fq.len() as int]; assert(files@ =~= fq.push(x)); lemma_push_contains(fq, x); } else { assert(files@ =~= fq); } }',
-               invariant=['fs_universe(fs) == fs_universe(old(fs))', 'fs_universe(fs).finite()', 'incmap(db) == m0', 'fset(&file_set) == v0.insert(file_id)',
+               invariant=['fs_universe(fs) == fs_universe(old(fs))', 'fs_universe(fs).finite()', 'incmap(db) == m0', C('fset(&file_set) == v0.insert(file_id)', name='the file whose includes are being resolved is marked as visited'),
                           'forall|i: int| 0 <= i < files@.len() ==> fs_universe(fs).contains(#[trigger] files@[i])',
                           '0 <= n <= elems.len()', '__it1.remaining() =~= elems.skip(n)', '__it1.obeys_prophetic_iter_laws()', '__it1.decrease() is Some', 'include_dir_list@ == dirs',
                           'files@.len() >= q0.len()', 'forall|i: int| 0 <= i < q0.len() ==> #[trigger] files@[i] == q0[i]',
